@@ -51,3 +51,6 @@ SPEC['rule'] += (' Added after the seeded-change rounds: ' +
     'Oracle-only scenarios (shared with C02/C04, run one at a time against the real broker): many-waiting-proxies (300 restricted proxies, then clients of both kinds), same-sid-repoll-with-other-nat (an eligible proxy must not be lost when its id is polled again with another NAT type), nat-spellings (every accepted and rejected spelling of the NAT type on both sides).')
 
 SPEC['thorough_passes'] = 3  # the thorough tier runs the whole harness under this many consecutive seeds
+
+SPEC['rule'] += (' ' +
+    'Added after round five: scenario other-entry-points (a poll announcing version 1.10 as raw JSON over the real /proxy handler, a legacy client with the Snowflake-NAT-Type header over the real /client handler); many-waiting-proxies now parks 1100 restricted proxies between two pairs of unrestricted ones.')
